@@ -241,7 +241,7 @@ def check(case, ctx):
         pT = complex(ctx.lib('point/%s' % cls, path.point, T))
         pk = complex(path[k].point(t))
         speed = lens[k] * 4 + size
-        ctx.check(abs(pT - pk) <= 64 * EPS * pos + 64 * EPS * speed / max(fr[k], 1e-300) * 0 + 1e-9 * 0 + _pt_tol(lens[k], fr[k], pos),
+        ctx.check(abs(pT - pk) <= 64 * EPS * pos + 64 * EPS * speed / max(fr[k], 1e-300) * 0 + 1e-9 * 0 + _pt_tol(max(lens[k], gen.spec_size([specs[k]])), fr[k], pos),
                   'point_vs_T2t', 'point(%r)=%r but path[%d].point(%r)=%r' % (T, pT, k, t, pk))
         # t2T inverts T2t
         T_back = float(ctx.lib('t2T', path.t2T, k, t))
